@@ -20,6 +20,7 @@ import itertools
 import json
 import random
 import warnings
+from pathlib import Path
 from typing import Any, Optional
 
 import numpy as np
@@ -30,6 +31,21 @@ from harness import lib_c06prog as P
 from harness import lib_c06vdep as V
 
 SIZES = [0, 1, 2, 5]
+GLUE_BASELINE = Path(__file__).resolve().parent.parent / "c06_glue_baseline.json"
+ESCALATE: list = []  # glue functions whose normalised AST differs from the committed baseline (this run)
+
+
+def glue_changes(tab) -> list:
+    """Glue functions (`_standard.py`, `_inline.py`, `Node.inference`, ...) whose normalised-AST hash differs
+    from the committed baseline. Not a violation: the run then uses larger case lists (all modules as
+    first-class in the termination loops, every value source under every backend, symbolic unary inputs,
+    4x the generated programs), so that a changed code path meets more inputs."""
+    try:
+        base = json.loads(GLUE_BASELINE.read_text())
+    except Exception:  # noqa: BLE001
+        return ["<no baseline>"]
+    now = {f"{g['file']}:{g['name']}": g["hash"] for g in tab.get("glue", [])}
+    return sorted(k for k in set(base) | set(now) if base.get(k) != now.get(k))
 
 
 # =============================================================================== correspondences
@@ -640,7 +656,7 @@ def oracle_term_loops(ck: core.Check) -> dict:
     """Loop x {trip count constant / initializer / computed / fed / omitted} x {cond omitted / constant /
     computed / fed} x body termination {never, at a constant, at a fed iteration, immediately}, every
     opset module, also nested in Loop / If / function / inlined model: scan outputs and their consumers."""
-    cases = V.term_loop_cases(P.OPSET_MODULES, ck.thorough)
+    cases = V.term_loop_cases(P.OPSET_MODULES, ck.thorough, bool(ESCALATE))
     stats = _family(ck, "term-loop", cases, V.run_term_loop, 3)
     per_mod = {m: sum(1 for c in cases if c["module"] == m) for m in P.OPSET_MODULES}
     stats["per_module_programs"] = per_mod
@@ -652,7 +668,7 @@ def oracle_term_loops(ck: core.Check) -> dict:
 def oracle_unary_all(ck: core.Check) -> dict:
     """EVERY constructor of every opset module (5 ai.onnx + 3 ml) that can be applied to one Var, on an
     input with distinct constant dims (f32[1,2,3,3] first): whatever type is reported vs. the runtime."""
-    cases = V.unary_cases(ck.thorough)
+    cases = V.unary_cases(ck.thorough or bool(ESCALATE))
     stats = {"programs": 0, "rejected": 0, "runs": 0, "runs_refused_by_runtime": 0, "vars_checked": 0, "operators_applied": 0,
              "not_observable": [], "per_module_operators": {}}
     for c in cases:
@@ -688,7 +704,7 @@ def oracle_scan_families(ck: core.Check) -> dict:
 def oracle_vdep(ck: core.Check) -> dict:
     """Operators whose reported shape depends on an input's VALUE, fed from every kind of value source,
     under each value-propagation backend."""
-    cases = V.vdep_cases(ck.thorough)
+    cases = V.vdep_cases(ck.thorough, bool(ESCALATE))
     stats = _family(ck, "vdep", cases, V.run_vdep, 1)
     if stats["vars_checked"] == 0 or stats["rejected"] > stats["programs"] // 3:
         ck.broken("correspondence", "value-dependent programs not observable", f"{stats['rejected']}/{stats['programs']} rejected: {stats['errors'][:2]}")
@@ -721,7 +737,7 @@ def oracle_programs(ck: core.Check) -> dict:
     stats = {"programs": 0, "build_failed": 0, "runs": 0, "runs_refused_by_runtime": 0, "vars_checked": 0,
              "ops": {}, "with_loop": 0, "with_if": 0, "with_inline": 0, "with_function": 0, "with_function-two-types": 0, "with_scan": 0,
              "body_vars_exposed": 0, "runtime_disagreements": 0, "disagreement_samples": []}
-    n = ck.pick(260, 8000)
+    n = ck.pick(1040 if ESCALATE else 260, 8000)
     for i in range(n):
         seed = rng.randrange(1 << 30)
         case = {"kind": "program", "seed": seed, "size": rng.randrange(3, 9)}
@@ -765,6 +781,11 @@ def run(ck: core.Check):
         tab = ml_overrides.generate()
         ck.cov["override_table"] = [f"{r['module']}:{r['op']}#{r['hash']}" for r in tab["rows"]]
         ck.cov["value_override_table"] = [f"{r['module']}:{r['cls']}#{r['hash']}" for r in tab.get("value_rows", [])]
+        ck.cov["glue_hashes"] = {f"{g['file']}:{g['name']}": g["hash"] for g in tab.get("glue", [])}
+        ESCALATE[:] = glue_changes(tab)
+        ck.cov["glue_changed_escalated"] = list(ESCALATE)
+        if ESCALATE:
+            ck.log("glue code differs from the baseline (" + ", ".join(ESCALATE)[:300] + "): escalated case counts")
     except Exception as e:  # noqa: BLE001
         ck.broken("translator", "ml_overrides not extractable", f"{type(e).__name__}: {e}")
     ck.lean(["SpoxModel.Props.C06"], audit="SpoxModel.Audit.C06")
